@@ -3,7 +3,7 @@
     records who signed, who was named, what was accepted and whose state moved; [check] re-runs the
     model over the table generated from the Go sources and compares. *)
 From Coq Require Import List ZArith Bool String.
-From Paloma Require Import Base.Corr Auth.Discipline Auth.Ante.
+From Paloma Require Import Base.Corr Auth.Discipline Auth.Ante Auth.Objects.
 From Paloma Require Gen.C03.
 Import ListNotations.
 Open Scope Z_scope.
@@ -21,6 +21,11 @@ Inductive case :=
 | CTx (auth : Z) (g : list (Z * Z))
       (msgs : list (string * list Z * Z * list (string * Z) * list Z * bool))
       (o_ante o_ok : bool) (o_touched : list Z)
+(** an object history (second round): correctly self-signed messages of several principals over token
+    denoms, ERC20 bindings and pending transfers, interleaved with genesis round trips of modules;
+    per step the model operation and whether the real delivery was accepted; at the end the real
+    stores' projection: (denom creator, sub, admin), (erc20, bound denom creator, sub), (pending id, sender) *)
+| CHist (env : Z) (steps : list (oop * bool)) (admins : list (Z * Z * Z)) (binds : list (Z * Z * Z)) (pending : list (Z * Z))
 (** decorator only, any message type *)
 | CAnte (kind : string) (g : list (Z * Z)) (signers : list Z) (creator : Z) (o_ante : bool)
 (** shape of the message type as the real codec sees it: 0 = signers resolved from metadata,
@@ -52,8 +57,36 @@ Definition minus (xs : list Z) (l : list Z) : list Z := filter (fun y => negb (m
 (** id the harness gives to a field value that is not an address of any actor: nobody's state *)
 Definition nobody : Z := 99.
 
+Definition is_other (op : oop) : bool := match op with OOther => true | _ => false end.
+
+Fixpoint run_hist (sh : shape) (s : ost) (steps : list (oop * bool)) : option ost :=
+  match steps with
+  | [] => Some s
+  | (op, ok) :: r =>
+    if is_other op then run_hist sh s r
+    else let (s', b) := ostep sh s op in
+         if Bool.eqb b ok then run_hist sh s' r else None
+  end.
+
+Definition opt_z_eqb (a : option Z) (b : Z) : bool := match a with Some x => x =? b | None => false end.
+
+Definition check_hist (env : Z) (steps : list (oop * bool)) (admins binds : list (Z * Z * Z)) (pending : list (Z * Z)) : bool :=
+  match run_hist Gen.C03.code_shape (if env =? 2 then init_env2 else init_env1) steps with
+  | None => false
+  | Some s =>
+    forallb (fun x => let '(dc, ds, a) := x in opt_z_eqb (admin_of s (dc, ds)) a) admins
+    && forallb (fun x => let '(e, dc, ds) := x in match e2d s e with Some d => denom_eqb d (dc, ds) | None => false end) binds
+    && (if env =? 2 then true
+        else forallb (fun e => match e2d s e with
+                               | Some _ => existsb (fun x => fst (fst x) =? e) binds
+                               | None => true end) [1; 2; 3])
+    && forallb (fun x => match pend s (fst x) with Some (p, _) => p =? snd x | None => false end) pending
+    && (Z.of_nat (List.length (o_pend s)) =? Z.of_nat (List.length pending))
+  end.
+
 Definition check (c : case) : bool :=
   match c with
+  | CHist env steps admins binds pending => check_hist env steps admins binds pending
   | CDeliver kind auth g signers creator fields ext biz o_ante o_ok o_touched =>
     match find_spec kind Gen.C03.specs with
     | None => false
